@@ -44,10 +44,9 @@ SCOPES = {
             ("service_stop", _c(1, {0, 1}, 2, SVC - {"wait"}), "Spec", MC_INV, MC_PROPS, [a for a in ACTIONS_1 if "Wait" not in a], None),
             ("service_wait", _c(1, {0, 1}, 2, SVC - {"stop"}), "Spec", MC_INV, MC_PROPS, ["CallWaitStep", "WaitRoundStep"], None),
             ("service_both", _c(1, {1}, 2, SVC - {"cancel"}, {"prop", "exc"}), "Spec", MC_INV, MC_PROPS, None, None),
-            ("service_nolate_strict", _c(1, {0, 1}, 2, SVC - {"late", "wait"}), "Spec", [], ["StopReturnsOnlyWhenAllDoneStrict"], None, None),
-            ("service_late_strict", _c(1, {0}, 1, SVC), "Spec", [], ["StopReturnsOnlyWhenAllDoneStrict"], None, "StopReturnsOnlyWhenAllDoneStrict"),
-            ("service_repaired", _c(1, {0, 1}, 2, (SVC - {"wait"}) | {"fixed"}, {"prop"}), "FairSpec", MC_INV,
-             ["StopReturnsOnlyWhenAllDoneStrict", "StopSurfacesErrors", "StopCancelsEverything", "StopLeadsToReturn"], None, None),
+            # legacy design (wait() before commit 799638e), specification only: the clause is violated and the cause predicate names it
+            ("legacy_witness", _c(1, {0}, 1, SVC | {"legacy"}), "Spec", [], ["StopReturnsOnlyWhenAllDone"], None, "StopReturnsOnlyWhenAllDone"),
+            ("legacy_cause", _c(1, {0, 1}, 2, (SVC - {"wait"}) | {"legacy"}), "Spec", [], ["LegacyViolationHasCause"], None, None),
             ("run2", _c(2, {1}, 2, {"run", "stop"}, {"prop"}), "Spec", MC_INV, MC_PROPS, ACTIONS_RUN, None),
             ("live1", _c(1, {0, 1}, 2, SVC - {"wait"}, {"prop"}), "FairSpec", [], ["StopLeadsToReturn", "RestartHappens"], None, None),
             ("live_run2", _c(2, {0}, 1, {"run", "stop"}, {"prop"}), "FairSpec", [], MC_LIVE, None, None),
@@ -65,10 +64,9 @@ SCOPES = {
         mc=[
             ("policy", _c(1, {0, 1, 2, UNL}, 4, {"start", "stop", "cancel"}), "Spec", MC_INV, MC_PROPS, None, None),
             ("service", _c(1, {0, 1, 2, UNL}, 3, SVC), "Spec", MC_INV, MC_PROPS, ACTIONS_1, None),
-            ("service_nolate_strict", _c(1, {0, 1, 2, UNL}, 3, SVC - {"late"}), "Spec", [], ["StopReturnsOnlyWhenAllDoneStrict"], None, None),
-            ("service_late_strict", _c(1, {0}, 1, SVC), "Spec", [], ["StopReturnsOnlyWhenAllDoneStrict"], None, "StopReturnsOnlyWhenAllDoneStrict"),
-            ("service_repaired", _c(1, {0, 1}, 2, (SVC - {"wait"}) | {"fixed"}, {"prop"}), "FairSpec", MC_INV,
-             ["StopReturnsOnlyWhenAllDoneStrict", "StopSurfacesErrors", "StopCancelsEverything", "StopLeadsToReturn"], None, None),
+            # legacy design (wait() before commit 799638e), specification only: the clause is violated and the cause predicate names it
+            ("legacy_witness", _c(1, {0}, 1, SVC | {"legacy"}), "Spec", [], ["StopReturnsOnlyWhenAllDone"], None, "StopReturnsOnlyWhenAllDone"),
+            ("legacy_cause", _c(1, {0, 1}, 2, (SVC - {"wait"}) | {"legacy"}), "Spec", [], ["LegacyViolationHasCause"], None, None),
             ("run2", _c(2, {0, 1}, 2, {"run", "stop", "cancel"}, {"prop", "exc"}), "Spec", MC_INV, MC_PROPS, ACTIONS_RUN, None),
             ("live1", _c(1, {0, 1, UNL}, 3, SVC - {"wait"}, {"prop"}), "FairSpec", [], ["StopLeadsToReturn", "RestartHappens"], None, None),
             ("live_run2", _c(2, {0, 1}, 2, {"run", "stop"}, {"prop"}), "FairSpec", [], MC_LIVE, None, None),
@@ -509,6 +507,7 @@ def run(prop: str, tier: str) -> int:
     rep.assumptions = [
         "asyncio is single-threaded: one loop iteration is the finest interleaving; start/cancel/stop/wait/run are called between iterations (the calls run eagerly up to their first suspension)",
         "the probe _run has two await points; a CancelledError is propagated, turned into an Exception or into a normal return (an Exception escaping _run is a failure even if a cancellation was requested)",
+        "the specification models _wait() as repaired in 799638e (errors kept, tasks added while waiting are awaited and, by stop(), cancelled); the earlier behaviour is kept as a named cause predicate (Dev_LateTaskAbandoned) and a legacy design-level witness",
         "one extra task per start; at most one stop() and one wait() in flight per actor; a stop()/wait()/run() answers for the generation of tasks it was called on (a start() issued after that generation ended begins a new one)",
         "time: 1 s ticks of the virtual clock, RESTART_DELAY = 2 s",
     ]
@@ -527,11 +526,11 @@ def run(prop: str, tier: str) -> int:
         if kind == "mc":
             consts, inv, props, acts, exp = expect[name]
             rep.add_mc("mc_" + name, res, _printable(consts), inv + props,
-                       mode="exhaustive" + (", expected to be violated: design-level witness of the known finding" if exp else ""))
+                       mode="exhaustive" + (", legacy design, expected to be violated (witness of the defect repaired in 799638e)" if exp else ""))
             if exp:
                 if res.ok or exp not in res.violated:
-                    raise RuntimeError(f"vacuity: {name} was expected to violate {exp} (the specification no longer models the deviation)")
-                rep.extra["design_level_witness"] = f"{exp} is violated by the specification when tasks may be added during stop() ({res.distinct} states)"
+                    raise RuntimeError(f"vacuity: {name} was expected to violate {exp} (the legacy variant of the specification no longer shows the defect)")
+                rep.extra["legacy_design_witness"] = f"{exp} is violated by the legacy variant of the specification (wait() before 799638e) when tasks may be added during stop() ({res.distinct} states)"
                 continue
             if not res.ok:
                 rep.fail("C10.MC." + "/".join(res.violated), dict(stage="mc_" + name), res.counterexample[:3000])
@@ -586,9 +585,8 @@ def run(prop: str, tier: str) -> int:
     total = {k: sum(st["exercised"][k] for st in stages.values()) for k in EXERCISE_KEYS}
     rep.extra["stages"] = [{k: v for k, v in st.items() if k != "base"} for st in stages.values()]
     rep.extra["exercised"] = total
-    known_only = all(f["deviations"] for f in rep.failures)
     missing = [k for k, v in total.items() if v == 0]
-    if missing and known_only:
+    if missing and not rep.failures:
         raise RuntimeError(f"vacuity: never exercised on the real code: {missing}")
     if tier == "quick":
         rep.exhaustive = False
